@@ -183,6 +183,38 @@ func comp(rng *rand.Rand, depth int, root bool) *sto.Spec {
 	}
 }
 
+// craftedPerHistory is the number of crafted file schemas of a directed blobpacked history.
+const craftedPerHistory = 2
+
+// packedTrees are the directed blobpacked trees: the store alone (volatile and durable meta) and
+// below every kind of store that hands it whole blobs.
+func packedTrees(thorough bool) []*sto.Spec {
+	bp := func(meta string, small, large *sto.Spec) *sto.Spec {
+		return sp("blobpacked", map[string]any{"meta": meta}, small, large)
+	}
+	out := []*sto.Spec{
+		bp("memory", mem(), mem()),
+		bp("leveldb", mem(), sp("localdisk", nil)),
+		sp("cond", nil, bp("memory", mem(), mem()), mem()),
+		sp("replica", nil, bp("memory", mem(), mem()), mem()),
+		sp("namespace", map[string]any{"sibling": "no"}, bp("memory", mem(), mem())),
+		sp("proxycache", map[string]any{"cacheBytes": 300}, bp("kv", sp("localdisk", nil), mem())),
+		sp("overlay", nil, mem(), bp("memory", mem(), mem())),
+		sp("shard", nil, bp("leveldb", sp("diskpacked", map[string]any{"meta": "leveldb"}), mem())),
+		bp("memory", bp("memory", mem(), mem()), mem()),
+	}
+	if thorough {
+		out = append(out,
+			bp("kv", sp("localdisk", nil), sp("diskpacked", map[string]any{"meta": "leveldb"})),
+			bp("sqlite", mem(), mem()),
+			sp("replica", map[string]any{"readFirst": 1}, bp("memory", mem(), mem()), mem()),
+			sp("proxycache", map[string]any{"cacheBytes": 1 << 20}, sp("cond", nil, bp("memory", mem(), mem()), mem())),
+			sp("overlay", map[string]any{"deleted": "leveldb"}, mem(), bp("leveldb", sp("localdisk", nil), sp("localdisk", nil))),
+		)
+	}
+	return out
+}
+
 func leafSub(rng *rand.Rand) *sto.Spec {
 	switch rng.Intn(3) {
 	case 0:
@@ -247,7 +279,7 @@ func hasKind(s *sto.Spec, kind string) bool {
 
 func main() {
 	ev.Main("C01", "exploration",
-		"seeded operation histories (receive/fetch/subfetch/stat/enumerate/remove/reopen, 40-200 ops) over every backend and seeded compositions (incl. overlay/union below the root filled by a nested preload, replicas with a distinct read set holding hidden blobs in a write-only backend, sibling namespaces judged by a second reference map, re-creation of composite trees), each result compared with a reference map and a full audit every 8 ops; universes always hold the 0-byte blob and, in one history per backend / every second history of a tree containing cond, blobs above schema.MaxSchemaBlobSize+1 up to the 16 MiB cap; ranged fetches include the documented boundaries (offset == size, length 0, the empty blob, off+len beyond the blob and beyond int64) on every SubFetch-capable root; distinct = (backend spec, history hash); non-trivial = history contains >=1 remove or refusal, >=1 re-receive and >=3 enumerations",
+		"seeded operation histories (receive/fetch/subfetch/stat/enumerate/remove/reopen, 40-200 ops) over every backend and seeded compositions (incl. overlay/union below the root filled by a nested preload, replicas with a distinct read set holding hidden blobs in a write-only backend, sibling namespaces judged by a second reference map, re-creation of composite trees), each result compared with a reference map and a full audit every 8 ops; universes always hold the 0-byte blob and, in one history per backend / every second history of a tree containing cond, blobs above schema.MaxSchemaBlobSize+1 up to the 16 MiB cap; every tree that contains a blobpacked store also receives hand-written file schemas of >= 512 KiB whose parts are not what perkeep's own writer produces (parts shorter than the blob they name, the same chunk under two part sizes, over-long parts, offsets, sparse parts, short parts inside a nested bytes schema, a prefix of a blob another file or the random universe also uses; 14 variants rotated over directed trees with blobpacked at the root and below cond/replica/namespace/proxycache/overlay/shard/blobpacked), every blob involved staying under the same reference map; ranged fetches include the documented boundaries (offset == size, length 0, the empty blob, off+len beyond the blob and beyond int64) on every SubFetch-capable root; distinct = (backend spec, history hash); non-trivial = history contains >=1 remove or refusal, >=1 re-receive and >=3 enumerations",
 		run)
 }
 
@@ -263,14 +295,22 @@ func run(r *ev.Run) {
 		spec   *sto.Spec
 		n      int
 		single bool
+		// crafted >= 0: a directed blobpacked history; the value is the position of its first crafted
+		// file in the rotation over sto.CraftedVariants().  -1: an ordinary history.
+		crafted int
 	}
 	var jobs []job
 	for _, s := range singles(r.Thorough()) {
-		jobs = append(jobs, job{s, r.Pick(6, 12), true})
+		jobs = append(jobs, job{s, r.Pick(6, 12), true, -1})
 	}
 	crng := r.Rand("compositions")
 	for i := 0; i < r.Pick(40, 300); i++ {
-		jobs = append(jobs, job{composition(crng, 3), r.Pick(2, 2), false})
+		jobs = append(jobs, job{composition(crng, 3), r.Pick(2, 2), false, -1})
+	}
+	// directed blobpacked trees (appended last: the case ids of the histories above do not move)
+	for i, s := range packedTrees(r.Thorough()) {
+		n := r.Pick(3, 8)
+		jobs = append(jobs, job{s, n, s.Kind == "blobpacked", i * n * craftedPerHistory})
 	}
 	// histories are independent (own scratch dir, own PRNG stream keyed by case): a small pool runs them
 	type hcase struct {
@@ -300,7 +340,11 @@ func run(r *ev.Run) {
 			for i := range next {
 				hc := cases[i]
 				r.Guard("history", caseRec{CaseID: hc.id + ";", Backend: hc.j.spec.String()}, func() {
-					samples[i] = runHistory(r, root, hc.id, hc.j.spec, hc.j.single, hc.h)
+					first := -1
+					if hc.j.crafted >= 0 {
+						first = hc.j.crafted + hc.h*craftedPerHistory
+					}
+					samples[i] = runHistory(r, root, hc.id, hc.j.spec, hc.j.single, hc.h, first)
 				})
 			}
 		}()
@@ -320,6 +364,9 @@ func run(r *ev.Run) {
 		"big-blob-received", "big-blob-through-cond", "stat-batch>=60", "sibling-namespace-audited", "hidden-in-non-read-replica",
 		"preloaded-tree-with-nested-overlay", "preloaded-tree-with-nested-union")
 	r.Require("reopened_kinds", "localdisk", "diskpacked", "encrypt", "blobpacked", "overlay", "replica", "shard", "cond", "proxycache", "union")
+	// crafted file schemas reached blobpacked stores at the root and below other stores, in every variant
+	r.Require("events", "crafted-file-to-root-blobpacked", "crafted-file-to-nested-blobpacked")
+	r.Require("crafted_variants", sto.CraftedVariants()...)
 	// every root kind that implements blob.SubFetcher saw the documented boundary ranges on present blobs
 	for _, kind := range []string{"memory", "localdisk", "diskpacked", "blobpacked", "proxycache"} {
 		for _, cat := range []string{"off==size", "len==0", "empty-blob", "clipped", "off>size", "huge-length"} {
@@ -328,7 +375,7 @@ func run(r *ev.Run) {
 	}
 }
 
-func runHistory(r *ev.Run, root, id string, spec *sto.Spec, single bool, h int) (sample *caseRec) {
+func runHistory(r *ev.Run, root, id string, spec *sto.Spec, single bool, h int, craftedFirst int) (sample *caseRec) {
 	rng := r.Rand(fmt.Sprintf("history/%s/%s/%d", id, spec, h))
 	dir, err := os.MkdirTemp(root, "h")
 	if err != nil {
@@ -365,6 +412,69 @@ func runHistory(r *ev.Run, root, id string, spec *sto.Spec, single bool, h int) 
 		}
 		fileBlobs = fb
 		universe = append(universe, fb...)
+	}
+	// delivery queues: the blobs of each file arrive in order (chunks first, file schema last), mixed with the other ops
+	var queues [][]sto.Blob
+	if packing {
+		queues = append(queues, fileBlobs)
+	}
+	// crafted file schemas (sto.NewCraftedFile): parts shorter than the blob they name, the same chunk
+	// with two part sizes, ... in every directed blobpacked history (rotating over all variants) and in
+	// the odd histories of every other tree that contains a blobpacked store (seeded variant)
+	nCrafted := 0
+	switch {
+	case craftedFirst >= 0:
+		nCrafted = craftedPerHistory
+	case hasKind(spec, "blobpacked") && h%2 == 1:
+		nCrafted = 1
+	}
+	var crafted []sto.CraftedFile
+	craftedQ := map[int]int{} // queue index -> crafted index
+	if nCrafted > 0 {
+		crng := r.Rand("crafted/" + id) // own stream
+		vs := sto.CraftedVariants()
+		inUniverse := map[blob.Ref]bool{}
+		for _, u := range universe {
+			inUniverse[u.Ref] = true
+		}
+		for i := 0; i < nCrafted; i++ {
+			v := vs[crng.Intn(len(vs))]
+			if craftedFirst >= 0 {
+				v = vs[(craftedFirst+i)%len(vs)]
+			}
+			var shared *sto.Blob
+			if v == "prefix-of-shared" {
+				// a chunk of the ordinary file of this history (packed or still loose when the crafted
+				// file arrives), else a blob of the random universe
+				var cand []sto.Blob
+				if packing {
+					cand = fileBlobs[:len(fileBlobs)-1]
+				} else {
+					for _, u := range universe {
+						if len(u.Data) >= 2 && len(u.Data) <= sto.SchemaCap {
+							cand = append(cand, u)
+						}
+					}
+				}
+				if len(cand) > 0 {
+					shared = &cand[crng.Intn(len(cand))]
+				}
+			}
+			cf, err := sto.NewCraftedFile(crng, v, shared)
+			if err != nil {
+				r.Inconclusive("NewCraftedFile: " + err.Error())
+				return
+			}
+			for _, x := range cf.Blobs {
+				if !inUniverse[x.Ref] {
+					inUniverse[x.Ref] = true
+					universe = append(universe, x)
+				}
+			}
+			craftedQ[len(queues)] = len(crafted)
+			queues = append(queues, cf.Blobs)
+			crafted = append(crafted, cf)
+		}
 	}
 	label := spec.Kind
 	rec := &caseRec{CaseID: id + ";", Backend: spec.String()}
@@ -455,21 +565,69 @@ func runHistory(r *ev.Run, root, id string, spec *sto.Spec, single bool, h int) 
 		nops = 40 + rng.Intn(40)
 		r.Count("big_blob_histories", 1)
 	}
+	for _, cf := range crafted {
+		nops += 3 * len(cf.Blobs) // room to deliver them
+	}
 	removed := map[blob.Ref]bool{}
 	var nRemove, nReRecv, nEnum, nRefuse int
 	log := func(op, a, a2 string) { rec.Ops = append(rec.Ops, opRec{op, a, a2}) }
 	pick := func() sto.Blob { return universe[rng.Intn(len(universe))] }
-	fileNext := 0
+	qNext := make([]int, len(queues))
+	craftedDone := 0
+	// pendingQueue returns a queue that still has blobs to deliver (-1: none); the PRNG is consulted
+	// only when there is a choice
+	pendingQueue := func() int {
+		var live []int
+		for q := range queues {
+			if qNext[q] < len(queues[q]) {
+				live = append(live, q)
+			}
+		}
+		switch len(live) {
+		case 0:
+			return -1
+		case 1:
+			return live[0]
+		}
+		return live[rng.Intn(len(live))]
+	}
 	for i := 0; i < nops && !c.Dead && reported < 5; i++ {
 		k := rng.Intn(100)
+		q := -1
+		if k < 50 {
+			q = pendingQueue()
+		}
 		switch {
-		case packing && fileNext < len(fileBlobs) && k < 50:
-			fb := fileBlobs[fileNext]
-			fileNext++
-			log("receive", fb.String(), "file-part")
+		case q >= 0:
+			fb := queues[q][qNext[q]]
+			qNext[q]++
+			done := qNext[q] == len(queues[q])
+			ci, isCrafted := craftedQ[q]
+			if !isCrafted {
+				log("receive", fb.String(), "file-part")
+				c.Receive(fb)
+				if done {
+					r.Note("events", "file-delivered")
+				}
+				break
+			}
+			cf := crafted[ci]
+			what := "crafted-file-part"
+			if done {
+				what = "crafted-file-schema:" + cf.Variant
+			}
+			log("receive", fb.String(), what)
 			c.Receive(fb)
-			if fileNext == len(fileBlobs) {
-				r.Note("events", "file-delivered")
+			if done && c.LastErr() == nil {
+				craftedDone++
+				r.Note("crafted_variants", cf.Variant)
+				r.Count("crafted_files_delivered", 1)
+				if spec.Kind == "blobpacked" {
+					r.Note("events", "crafted-file-to-root-blobpacked")
+				} else {
+					r.Note("events", "crafted-file-to-nested-blobpacked")
+					r.Note("crafted_under", spec.Kind)
+				}
 			}
 		case k < 30:
 			bl := pick()
@@ -624,8 +782,15 @@ func runHistory(r *ev.Run, root, id string, spec *sto.Spec, single bool, h int) 
 		if storeHasBlob(lg) {
 			r.Note("events", "zip-packed")
 			r.Count("histories_with_zip_in_large", 1)
+			if !packing && craftedDone > 0 {
+				r.Count("crafted_only_histories_with_zip_in_large", 1)
+			}
 			break
 		}
+	}
+	if len(crafted) > 0 {
+		r.Count("crafted_histories", 1)
+		r.Count("crafted_files_not_delivered", len(crafted)-craftedDone)
 	}
 	// observed structure
 	if hasKind(spec, "diskpacked") {
